@@ -587,6 +587,10 @@ pub fn parse_bin_value(c: &mut Cur<'_>, ty: u8, flags: u16) -> Result<BinVal, St
             if len >= 11 {
                 d.7 = c.u32()?;
             }
+            // a conformant client rejects fields outside the protocol's ranges
+            if d.2 > 12 || d.3 > 31 || d.4 > 23 || d.5 > 59 || d.6 > 59 || d.7 > 999_999 {
+                return Err(format!("date/datetime field out of range: {:04}-{:02}-{:02} {:02}:{:02}:{:02}.{}", d.1, d.2, d.3, d.4, d.5, d.6, d.7));
+            }
             BinVal::Date(d.0, d.1, d.2, d.3, d.4, d.5, d.6, d.7)
         }
         0x0b => {
@@ -605,6 +609,9 @@ pub fn parse_bin_value(c: &mut Cur<'_>, ty: u8, flags: u16) -> Result<BinVal, St
             }
             if len >= 12 {
                 t.6 = c.u32()?;
+            }
+            if t.3 > 23 || t.4 > 59 || t.5 > 59 || t.6 > 999_999 {
+                return Err(format!("time field out of range: {}d {:02}:{:02}:{:02}.{}", t.2, t.3, t.4, t.5, t.6));
             }
             BinVal::Time(t.0, t.1, t.2, t.3, t.4, t.5, t.6)
         }
